@@ -64,7 +64,7 @@ func (s *vKV) Clear(_ context.Context, key string) error {
 	}
 	return nil
 }
-func (s *vKV) Lock(string) sessions.Lock                    { return &sessions.NoOpLock{} }
+func (s *vKV) Lock(string) sessions.Lock              { return &sessions.NoOpLock{} }
 func (s *vKV) VerifyConnection(context.Context) error { return nil }
 
 type vRW struct {
